@@ -71,6 +71,10 @@ def _case(draw, tier):
             ent["model"][1] == "pwc" and ent["cls"] in poolreg.ANY_CLF:
         opts["model_key"] = draw(st.sampled_from(
             ["pwc", "pwc", "gnb", "lr", "tree_clf", "pwc_default"]))
+    if ent["alt"] and not poolreg.is_wrapper(name) and \
+            draw(st.integers(0, 2)) == 0:
+        # alternative constructor configuration of the registry entry
+        opts["alt_init"] = draw(st.integers(0, len(ent["alt"]) - 1))
     if poolreg.is_wrapper(name):
         opts["max_candidates_int"] = draw(st.integers(1, 6))
         opts["max_candidates_float"] = draw(st.sampled_from(
